@@ -110,6 +110,9 @@ DevEnabled(d, feat) ==
     \* after a statement with a xonsh bracket form the tokenizer stops reporting a `#` glued to the
     \* previous token as a comment: the first pass separates it by one blank, the next pass by two
     [] d = "Dev_GluedHashAfterBracket"    -> feat.glued_hash_after_bracket
+    \* a command whose first argument starts with a Python keyword glued to `-` or `=` (`echo not-x`,
+    \* `echo if=a`) is taken for a Python statement and the keyword is spaced off its tail
+    [] d = "Dev_KeywordLedArgument"       -> feat.keyword_led_argument
     [] OTHER -> FALSE
 
 Format(feat, accepted) ==
@@ -129,7 +132,7 @@ Init == /\ input \in Streams /\ level \in {0, 1}
         /\ lineStart = TRUE /\ pending = 0 /\ pass = 1 /\ first = <<>>
         /\ res = [accepted |-> TRUE, same |-> TRUE, idem |-> TRUE, dev |-> ""] /\ phase = "run"
 
-MCFormat == \E tt \in BOOLEAN, al \in BOOLEAN, dc \in BOOLEAN, gh \in BOOLEAN : Format([triple_trailing |-> tt, assign_like_command |-> al, dangling_continuation |-> dc, glued_hash_after_bracket |-> gh], TRUE)
+MCFormat == \E tt \in BOOLEAN, al \in BOOLEAN, dc \in BOOLEAN, gh \in BOOLEAN, kl \in BOOLEAN : Format([triple_trailing |-> tt, assign_like_command |-> al, dangling_continuation |-> dc, glued_hash_after_bracket |-> gh, keyword_led_argument |-> kl], TRUE)
 Next == Step \/ EndPass \/ (phase = "done" /\ phase' = "idle" /\ UNCHANGED <<input, pos, out, depth, macroFn, macroLine, subproc, lineStart, pending, level, pass, first, res>>) \/ MCFormat
 Spec == Init /\ [][Next]_vars
 
